@@ -60,7 +60,9 @@ class _Index(object):
         self._h = h
 
     def __del__(self):
-        core.release(self._h)
+        h = getattr(self, "_h", None)     # absent when the constructor raised; core is None at interpreter shutdown
+        if h is not None and core is not None:
+            core.release(h)
 
     def _info(self):
         kind = ctypes.c_int()
@@ -84,6 +86,10 @@ class _Index(object):
             return out.astype(dtype)
         # the binding exposes the buffer protocol, so numpy.array(x, copy=True) copies: honour numpy 2's copy keyword
         return out.copy() if copy else out
+
+    def __buffer__(self, flags):
+        # PEP 688: the binding's classes implement the buffer protocol (pyarrow.py_buffer(index) relies on it)
+        return memoryview(self._view())
 
     def __len__(self):
         return self._info()[2]
@@ -190,7 +196,9 @@ class _SliceBuilder(object):
         self.keep = []
 
     def __del__(self):
-        core.release(self.h)
+        h = getattr(self, "h", None)
+        if h is not None and core is not None:
+            core.release(h)
 
     def append_array(self, array, frombool):
         intarray = np.ascontiguousarray(np.asarray(array, dtype=np.int64))
@@ -425,7 +433,9 @@ class Content(object):
         raise TypeError("Content is abstract")
 
     def __del__(self):
-        core.release(self._h)
+        h = getattr(self, "_h", None)     # absent when the constructor raised; core is None at interpreter shutdown
+        if h is not None and core is not None:
+            core.release(h)
 
     def _finish(self, res, identities, parameters):
         if identities is not None:
@@ -798,6 +808,10 @@ class NumpyArray(Content):
             return out.astype(dtype)
         return out.copy() if copy else out
 
+    def __buffer__(self, flags):
+        # PEP 688: the binding's NumpyArray implements the buffer protocol (pyarrow.py_buffer(layout.content) relies on it)
+        return memoryview(self.__array__())
+
     shape = property(lambda self: tuple(self._info()[2]))
     strides = property(lambda self: tuple(self._info()[3]))
     itemsize = property(lambda self: self._info()[4])
@@ -1102,11 +1116,16 @@ UnionArray8_U32 = _mk_union("UnionArray8_U32", IndexU32)
 UnionArray8_64 = _mk_union("UnionArray8_64", Index64)
 
 
-# placeholders replaced by akshim.builders / akshim.virtual when those modules are imported
-class ArrayBuilder(object):
-    pass
+# ArrayBuilder / LayoutBuilder live in akshim.builder (which imports this module lazily, so either import order works)
+from akshim.builder import ArrayBuilder, LayoutBuilder  # noqa: E402,F401
+
+
+# placeholder replaced by akshim.virtual when that module is imported
 
 
 @_register
 class VirtualArray(Content):
     pass
+
+
+import akshim.virtual  # noqa: E402,F401  - replaces the placeholder above (and adds ArrayGenerator, ArrayCache, partitions)
